@@ -724,7 +724,7 @@ class SlidingWindowSemaphore(TaskSemaphore):
             if tag not in self._tag_sequences:
                 raise ValueError(f"Attempted to release unknown tag: {tag}")
             max_sequence = self._tag_sequences[tag]
-            if self._lowest_sequence[tag] == sequence_number:
+            if self._lowest_sequence[tag] == sequence_number < max_sequence:
                 # We can immediately process this request and free up
                 # resources.
                 self._lowest_sequence[tag] += 1
@@ -738,7 +738,10 @@ class SlidingWindowSemaphore(TaskSemaphore):
                         self._count += 1
                     else:
                         break
-            elif self._lowest_sequence[tag] < sequence_number < max_sequence:
+            elif (
+                self._lowest_sequence[tag] < sequence_number < max_sequence
+                and sequence_number not in self._pending_release.get(tag, [])
+            ):
                 # We can't do anything right now because we're still waiting
                 # for the min sequence for the tag to be released.  We have
                 # to queue this for pending release.
